@@ -503,6 +503,16 @@ class Interp:
             return
         if isinstance(s, ast.Pass):
             return
+        if isinstance(s, ast.With) and len(s.items) == 1 and s.items[0].optional_vars is None and isinstance(s.items[0].context_expr, ast.Call) and norm(s.items[0].context_expr.func) in ("contextlib.suppress", "suppress"):
+            # with suppress(E, ...): body   ==   try: body / except (E, ...): pass
+            classes = [exc_class_of(a) or "?" for a in s.items[0].context_expr.args]
+            try:
+                self.exec_block(s.body, env)
+            except RaiseSig as r:
+                if not any(self.exc.is_sub(r.cls, c) for c in classes):
+                    raise
+                self.events.append({"kind": "caught", "cls": r.cls, "by": classes, "func": self.cur})
+            return
         if isinstance(s, ast.Assert):
             c = self.to_cond(self.eval(s.test, env), s.test)
             if not self.decide(c, "assert %s" % norm(s.test)[:40]):
@@ -971,6 +981,14 @@ class Interp:
             fi = self.prog.resolve_method(base.cls, e.attr)
             if fi is not None:
                 return ("unbound", base.cls, fi)
+        if base.__class__.__name__ == "ModInfo":
+            # a function / class / constant of a module of the package, reached through the module object
+            r = self.prog.resolve_dotted(base.name + "." + e.attr)
+            if r is not None:
+                return TypeV(r.name) if r.__class__.__name__ == "ClassInfo" else r
+            okc, val = self.prog.resolve_constant(base, e.attr)
+            if okc:
+                return StrV() if isinstance(val, str) else OpaqueNN("const:%r" % (val,))
         if isinstance(base, TupleV) and e.attr in getattr(base, "names", []):
             return base.items[base.names.index(e.attr)]
         if isinstance(base, TupleV) and getattr(base, "cls", None):
